@@ -189,9 +189,53 @@ def rule_files(facts):
     return r
 
 
+def rule_colidx(facts):
+    """the filters handed to a column reader are selected with the same (file-schema) index that selects the column's
+    descriptor and data type"""
+    r = RuleResult("C11-COLIDX", "per-column scan filters are selected by the same schema index as the column descriptor", floor=0)
+    recs = facts.fns_matching(lambda i: i.endswith("StructReader::try_new_root::{closure#0}"))
+    if not recs:
+        r.notes.append("StructReader::try_new_root has no per-column closure any more: rule not applicable to the current shape")
+        return r
+    rec = recs[0]
+    fn = Fn(rec)
+    # (a) schema-index uses: Index::index on Vec<ColumnDescriptor> / Vec<Field>
+    idx_roots = []
+    for c in fn.calls():
+        if c.decl == "std::ops::Index::index" and re.search(r"Vec<[\w:]*(ColumnDescriptor|Field)>", str(c.callee.get("args"))):
+            o = fn.origin(c.args[1], at=c.bb)
+            idx_roots.append((o[0], o[1] if o[0] in ("arg", "local") else None, tuple(_field_path(o)), c.line))
+    # (b) filter selection: inner closure capturing an index, building ProjectedColumn::Data(<captured>)
+    sel_roots = []
+    for b, i, pl, rv, ln in fn.assigns():
+        if rv[0] == "agg" and rv[1][0] == "closure":
+            inner = facts.fn(rv[1][1])
+            if not inner or "ProjectedColumn" not in str(inner["bbs"]):
+                continue
+            ifn = Fn(inner)
+            for b2, i2, pl2, rv2, ln2 in ifn.assigns():
+                if rv2[0] == "agg" and rv2[1][0] == "adt" and rv2[1][1].endswith("ProjectedColumn") and rv2[1][2] == "Data":
+                    io = ifn.origin(rv2[2][0], at=b2)
+                    flds = _field_path(io)
+                    if io[0] == "arg" and io[1] == 1 and flds and flds[0].isdigit() and int(flds[0]) < len(rv[2]):
+                        o = fn.origin(rv[2][int(flds[0])], at=b)
+                        sel_roots.append((o[0], o[1] if o[0] in ("arg", "local") else None, tuple(_field_path(o)), ln2))
+    if not idx_roots or not sel_roots:
+        r.notes.append("try_new_root does not have the (filter-selection closure, schema index) shape: rule not applicable")
+        return r
+    r.functions.add(fn.id)
+    ref = idx_roots[0][:3]
+    ok = all(x[:3] == ref for x in idx_roots + sel_roots) and ref[0] == "arg"
+    r.inst({"fn": fn.id, "schema_index_roots": [x[:3] for x in idx_roots], "filter_selection_roots": [x[:3] for x in sel_roots]}, ok)
+    if not ok:
+        r.violate(fn.id, "filter-index-space", "the index used to pick a column's pushed-down filters is not the file-schema index used for its descriptor/type: "
+                  "a filter on one column prunes row groups by another column's statistics (matching rows disappear)", rec["file"], sel_roots[0][3])
+    return r
+
+
 def run(ctx):
     facts = ctx["facts"]
-    return [rule_prune(facts), rule_frame(facts), rule_files(facts)]
+    return [rule_prune(facts), rule_frame(facts), rule_files(facts), rule_colidx(facts)]
 
 
 CLAIM = {
